@@ -28,8 +28,27 @@ def _worker(prop, job):
     t0 = time.time()
     try:
         sys.setrecursionlimit(10000)
+        cov = os.environ.get("RVERIF_FUNCOV")
+        seen = set()
+        if cov:
+            # which functions of the code under contract does this job execute at all?  (a map of blind spots, not a verdict)
+            from .install import REPO
+            root = os.path.realpath(REPO) + os.sep
+
+            def prof(frame, event, arg):
+                if event == "call":
+                    co = frame.f_code
+                    fn = co.co_filename
+                    if fn.startswith(root) or os.path.realpath(fn).startswith(root):
+                        seen.add((os.path.basename(fn), co.co_name, co.co_firstlineno))
+            sys.setprofile(prof)
         mod = importlib.import_module(f"rverif.props.{prop.lower()}")
         obs = mod.run_job(job)
+        if cov:
+            sys.setprofile(None)
+            with open(cov, "a") as f:
+                for rec in sorted(seen):
+                    f.write(json.dumps([prop] + list(rec)) + "\n")
         return {"job": job, "obligations": obs, "error": None, "seconds": time.time() - t0}
     except BaseException as e:      # noqa: a crashing job is a checker defect (exit 3)
         return {"job": job, "obligations": [], "error": f"{type(e).__name__}: {e}\n{traceback.format_exc()}",
